@@ -963,3 +963,63 @@ _lvl("C12", "translation_validation",
 _lvl("C13", "translation_validation",
      "Same Lean model and correspondence as C12; the oracle evaluates the residual of the implicit equation at every non-limited node against tolerance + rounding bound. The classification of exponents as 'one' and the Newton exit test are regenerated from the source.",
      "bit-exact differential correspondence with the Lean model + residual oracle")
+
+
+# ----------------------------------------------------------------------------- C14
+
+def gen_adi(rng, tier):
+    out = []
+    hi = 7 if tier == "quick" else 12
+    for k in range(counts(tier, 200, 2000)):
+        g = gen.raster(rng, 3, hi, ov_prob=0.4, want_base=False)
+        lines = [g.line()]
+        n = g.n
+        for rep in range(rng.randint(1, 3)):
+            kind = rng.choice(["s", "a", "a"])
+            k0 = rng.choice([1e-3, 0.1, 1.0, 30.0, 1e3])
+            if kind == "s":
+                kpart = "s " + hx(k0)
+            else:
+                fam = rng.choice(["uniform", "random", "curved", "steps"])
+                if fam == "uniform":
+                    kv = [k0] * n
+                elif fam == "random":
+                    kv = [k0 * (0.1 + rng.random() * 3) for _ in range(n)]
+                elif fam == "curved":
+                    kv = [k0 * (1 + ((i // g.cols) - g.rows / 2.0) ** 2 + 0.5 * ((i % g.cols) - 1) ** 2) for i in range(n)]
+                else:
+                    kv = [k0 * rng.choice([1.0, 10.0, 0.01]) for _ in range(n)]
+                kpart = "a " + gen.hexes(kv)
+            dt = rng.choice([0.0, 1e-3, 1.0, 100.0, 1e6])
+            z = gen.elevation(rng, g, rng.choice(["random", "ints", "ints2", "steps", "plane", "cones", "negative", "zero"]))
+            lines.append("adi %s %s %s %d" % (kpart, hx(dt), gen.hexes(z), rng.choice([1, 1, 2])))
+        out.append(("d%d" % k, lines))
+    return out
+
+
+def adi_nontrivial(si):
+    return any(c.cmd == "adi" and any(x not in ("0000000000000000", "8000000000000000") for x in c.O.get("adi", [])) for c in si.calls)
+
+
+def adi_tags(si):
+    t = []
+    for c in si.calls:
+        if c.cmd == "adi":
+            t.append("K:" + ("scalar" if c.toks[1] == "s" else "array"))
+    g = si.calls[0].toks if si.calls else []
+    if len(g) > 11:
+        if "l" in g[7:11]:
+            t.append("looped_border")
+        if g[12:13] == ["ov"] and g[13:14] != ["0"]:
+            t.append("status_overrides")
+    return sorted(set(t))
+
+
+register("C14", gen=gen_adi, oracles=[oracle.c14], nontrivial=adi_nontrivial, tags=adi_tags,
+         sections={"adi", "grid"},
+         rule="rasters 3..7 (thorough ..12) per axis, anisotropic spacings, arbitrary border statuses incl. looped and interior status overrides, K scalar or array (uniform, random, curved, stepped; 1e-3..1e3), dt in {0,1e-3,1,100,1e6}, elevation families; 1-3 eroders per grid, 1-2 erode() calls each; oracle = exact-rational direct solve of the two half-step systems; non-trivial = some erosion non-zero",
+         trusted_base=["ADI theorems are over a field (exact arithmetic); rounding is covered by the bit-exact correspondence and the oracle's condition-number-scaled tolerance",
+                       "xtensor expression evaluation order mirrored by hand in Fs.Adi (tied by bit-exact comparison)"])
+_lvl("C14", "translation_validation",
+     "set_factors, the Thomas solve and both half steps are modelled in Lean (Fs.Adi) with the C++ operation order and compared bit for bit; the oracle solves the two half-step systems of the Peaceman-Rachford scheme directly in exact rationals (face-averaged diffusivity, fixed-value borders) and checks zero border erosion. Thomas/pivot theorems exist for a formulation not yet tied to Fs.Adi.thomas.",
+     "bit-exact differential correspondence with the Lean model + exact-rational direct-solve oracle")
